@@ -232,6 +232,163 @@ fn binary(c: &mut Collector, x: u64, y: u64) {
     }
 }
 
+
+/// An honest iterator wrapper that reports one of the size_hint shapes a caller can legally see:
+/// 0 = the inner (exact) hint, 1 = (0, None), 2 = (0, Some(upper)), 3 = (lower, None).
+struct Hinted<I> {
+    inner: I,
+    mode: u8,
+}
+impl<I: Iterator> Iterator for Hinted<I> {
+    type Item = I::Item;
+    fn next(&mut self) -> Option<I::Item> {
+        self.inner.next()
+    }
+    fn size_hint(&self) -> (usize, Option<usize>) {
+        let (lo, hi) = self.inner.size_hint();
+        match self.mode {
+            0 => (lo, hi),
+            1 => (0, None),
+            2 => (0, hi),
+            _ => (lo, None),
+        }
+    }
+}
+
+fn collect_squares(c: &mut Collector, items: &[u8], what: &str) {
+    c.eval();
+    c.count("collections-of-squares");
+    let want: u64 = items.iter().fold(0u64, |acc, i| acc | (1u64 << i));
+    let sq: Vec<chess_bitboard::Pos> = items.iter().map(|i| pos(*i)).collect();
+    let mut got: Vec<(String, u64)> = Vec::new();
+    for mode in 0..4u8 {
+        let b: chess_bitboard::BitBoard = Hinted { inner: sq.clone().into_iter(), mode }.collect();
+        got.push((format!("Vec::into_iter, hint shape {mode}"), b.to_u64()));
+    }
+    let b: chess_bitboard::BitBoard = sq.iter().copied().collect();
+    got.push(("slice::iter().copied()".into(), b.to_u64()));
+    let b: chess_bitboard::BitBoard = sq.iter().rev().copied().collect();
+    got.push(("reversed slice".into(), b.to_u64()));
+    if let Ok(arr) = <[chess_bitboard::Pos; 64]>::try_from(sq.clone()) {
+        c.count("collections-from-64-element-arrays");
+        let b: chess_bitboard::BitBoard = arr.into_iter().collect();
+        got.push(("[Pos; 64]".into(), b.to_u64()));
+    }
+    for (how, g) in got {
+        if g != want {
+            c.violation(
+                "set-semantics-violated",
+                "from_iter-squares",
+                format!("collecting {} squares ({what}; {how}) gave {g:#018x}, the union of the items is {want:#018x}; items {:?}", items.len(), &items[..items.len().min(80)]),
+                obj().set("op", "from_iter-squares").set("items", format!("{items:?}")),
+            );
+            return;
+        }
+    }
+}
+
+fn collect_boards(c: &mut Collector, items: &[u64], what: &str) {
+    c.eval();
+    c.count("collections-of-boards");
+    let want: u64 = items.iter().fold(0u64, |acc, i| acc | i);
+    let bs: Vec<chess_bitboard::BitBoard> = items.iter().map(|x| bb(*x)).collect();
+    let mut got: Vec<(String, u64)> = Vec::new();
+    for mode in 0..4u8 {
+        let b: chess_bitboard::BitBoard = Hinted { inner: bs.clone().into_iter(), mode }.collect();
+        got.push((format!("Vec::into_iter, hint shape {mode}"), b.to_u64()));
+    }
+    let b: chess_bitboard::BitBoard = bs.iter().rev().copied().collect();
+    got.push(("reversed slice".into(), b.to_u64()));
+    for (how, g) in got {
+        if g != want {
+            c.violation(
+                "set-semantics-violated",
+                "from_iter-boards",
+                format!("collecting {} boards ({what}; {how}) gave {g:#018x}, the union of the items is {want:#018x}; items {:x?}", items.len(), &items[..items.len().min(16)]),
+                obj().set("op", "from_iter-boards").set("items", format!("{items:x?}")),
+            );
+            return;
+        }
+    }
+}
+
+/// Collections as histories: the result must be the union whatever the length, the order, the
+/// repetitions, the subset relations between successive items and the size_hint shape.
+fn collections(c: &mut Collector, rng: &mut Rng, a: &Args) {
+    c.journal("collections");
+    // squares: every length 0..=130 and the width boundaries, five content shapes each
+    let mut lens: Vec<usize> = (0..=130).collect();
+    lens.extend([255, 256, 257, 511, 512, 513, 1000, 65535, 65536, 65537]);
+    for (k, &n) in lens.iter().enumerate() {
+        if k as u64 % a.nshards != a.shard || (a.small && n > 300) {
+            continue;
+        }
+        let p = rng.below(64) as u8;
+        let q = (p + 1 + rng.below(63) as u8) % 64;
+        collect_squares(c, &vec![p; n], "one square repeated");
+        let mut v = vec![p; n];
+        if n > 0 {
+            v[n - 1] = q;
+        }
+        collect_squares(c, &v, "one square repeated, a second one last");
+        if n > 0 {
+            v[n - 1] = p;
+            v[0] = q;
+        }
+        collect_squares(c, &v, "a second square first");
+        let v: Vec<u8> = (0..n).map(|i| (i % 64) as u8).collect();
+        collect_squares(c, &v, "squares in index order, cycling");
+        let v: Vec<u8> = (0..n).map(|_| rng.below(64) as u8).collect();
+        collect_squares(c, &v, "random squares");
+        let few: Vec<u8> = (0..1 + rng.below(5)).map(|_| rng.below(64) as u8).collect();
+        let v: Vec<u8> = (0..n).map(|_| *rng.pick(&few)).collect();
+        collect_squares(c, &v, "few distinct squares");
+    }
+    // boards: structured histories, where item k relates to the union so far
+    let rounds = if a.small { 150 } else if a.tier == "thorough" { 400_000 } else { 60_000 } / a.nshards.max(1) as usize + 1;
+    for r in 0..rounds {
+        let n = match r % 4 {
+            0 => rng.range(0, 4),
+            1 => rng.range(3, 8),
+            2 => rng.range(3, 20),
+            _ => rng.range(60, 70),
+        } as usize;
+        let mut items: Vec<u64> = Vec::with_capacity(n);
+        let mut union = 0u64;
+        for k in 0..n {
+            let sparse = rng.next_u64() & rng.next_u64() & rng.next_u64();
+            let x = match rng.below(10) {
+                0 | 1 => union & rng.next_u64(),                // a subset of what is already there
+                2 => union,                                     // exactly the union so far
+                3 if k > 0 => items[rng.below(k as u64) as usize], // an earlier item again
+                4 => 0,
+                5 if r % 16 == 0 => !0u64,
+                6 => 1u64 << rng.below(64),
+                7 => union | (1u64 << rng.below(64)),           // a superset
+                _ => sparse,
+            };
+            union |= x;
+            items.push(x);
+        }
+        collect_boards(c, &items, "structured history");
+    }
+    // the fixed shapes: [a, subset, newcomer], [a, a, b], [a, empty, b], [full, x], [x, full, y]
+    if a.shard == 0 {
+        for i in 0..64u8 {
+            for j in 0..64u8 {
+                if i == j {
+                    continue;
+                }
+                let fa = 0x0101010101010101u64 << (i % 8);
+                collect_boards(c, &[fa, fa & (1u64 << (i % 8)), 1u64 << j], "file, its first square, a newcomer");
+                collect_boards(c, &[1u64 << i, 1u64 << i, 1u64 << j], "a, a, b");
+                collect_boards(c, &[1u64 << i, 0, 1u64 << j], "a, empty, b");
+                collect_boards(c, &[1u64 << i, 1u64 << j, 1u64 << i, 1u64 << ((j + 1) % 64)], "a, b, a, c");
+            }
+        }
+    }
+}
+
 pub fn special_boards() -> Vec<u64> {
     let mut v = vec![0u64, !0u64];
     for i in 0..64 {
@@ -330,5 +487,6 @@ pub fn run(c: &mut Collector, a: &Args) {
         let y = rng.next_u64() & if i % 2 == 0 { rng.next_u64() } else { !0 };
         binary(c, x, y);
     }
+    collections(c, &mut rng, a);
     c.sample(obj().set("board", "0x00000000000000ff").set("iter", format!("{:?}", bb(0xff).iter().collect::<Vec<_>>())).set("nth(3)", format!("{:?}", bb(0xff).iter().nth(3))));
 }
